@@ -101,6 +101,7 @@ type ReqD struct {
 	CtxKey   int64  // -1 none, -2 non-string value, >= 0 string key id
 	Entry    string // Get GetWithExecution Run RunWithExecution GetAsync GetWithExecutionAsync RunAsync RunWithExecutionAsync
 	NoLsn    [3]bool // executor listeners left unregistered: OnSuccess, OnFailure, OnDone
+	SameExec bool    // run on the previous request's executor (same stack and listeners), without a context of its own
 	BNoLsn   int     // breaker state-change listeners left unregistered on the history's breakers (bits: OnClose OnOpen OnHalfOpen OnStateChanged); equals InstD.BNoLsn
 }
 
